@@ -1,0 +1,10 @@
+//go:build verif
+
+// Assumed read-only contracts on governance.Store getters used by handlers outside the governance domain.
+// Comment-only file, read by /verif/govc.
+
+package governance
+
+// the pool list is rebuilt from constants and option records on every call (read-only) — assumed
+//@ assume func (*Store).GetPoolList
+//@   modifies nothing
